@@ -11,8 +11,11 @@ From OIDC Require Import Lib Base64 Base64_proofs Cipher Cipher_proofs C12_spec 
    name if there is one, the custom map becomes the whole encoded object.
    [pre] is the username := preferred_username assignment of
    IntrospectionResponse.MarshalJSON; [vals_wf]: scope elements without spaces,
-   locale tags that the language package prints as read. *)
+   locale tags that the language package prints as read; [decode_domain]: the
+   encoded object has no key that is a non-identical case variant of a member
+   name (encoding/json would match it to the member; outside the decode model). *)
 Theorem C12_roundtrip_T : forall rfc lt lp ty vals claims,
+  decode_domain (schema_of ty) (encode_T ty vals claims) = true ->
   vals_wf lt (schema_of ty) (pre ty vals) = true ->
   decode rfc lt lp (schema_of ty) (JObj (encode_T ty vals claims))
   = norm rfc lt lp (schema_of ty) (pre ty vals) claims.
@@ -31,6 +34,16 @@ Theorem C12_registered_wins : forall ty vals claims f v j,
   lookup (fname f) (encode_T ty vals claims) = Some j.
 Proof. exact registered_wins_T. Qed.
 Print Assumptions C12_registered_wins.
+
+(* ... and a custom claim whose name is a case variant (ASCII case, U+017F for s,
+   U+212A for k: what encoding/json folds onto a member) of a written registered
+   member is not in the encoded object at all (fix Fxx-C12-1) *)
+Theorem C12_case_variants_dropped : forall ty vals claims k,
+  fold_variant (keys (reg_pairs (schema_of ty) (pre ty vals))) k = true ->
+  ~ In k (keys (reg_pairs (schema_of ty) (pre ty vals))) ->
+  lookup k (encode_T ty vals claims) = None.
+Proof. exact case_variants_dropped. Qed.
+Print Assumptions C12_case_variants_dropped.
 
 (* audience as string or array; time as number or RFC 3339 string; Bool as
    true or "true"; locales / scope as space-delimited string (or array) *)
